@@ -36,6 +36,9 @@ U = {
     "X": "http://www.w3.org/2001/XMLSchema#",
     "XI": "http://www.w3.org/2001/XMLSchema-instance",
 }
+# a series of further namespaces (quantity cases: many namespaces offered under one prefix)
+for _i in range(14):
+    U["N%d" % _i] = "http://n%d.example/" % _i
 PROV_URI = U["P"]
 AMBIG = object()
 
